@@ -39,6 +39,13 @@ REQUIRED_COUNTERS = {"quick": ["phases_lowered", "phase_x_valuation_walks", "pre
 SHARD_TIMEOUT = {"quick": 900, "thorough": 3000}
 
 
+def _last_json(stdout):
+    for ln in reversed(stdout.splitlines()):
+        if ln.startswith("VFJSON:"):
+            return json.loads(ln[7:])
+    raise ValueError("child produced no result line")
+
+
 def plan(tier, seed):
     per = 150 if tier == "quick" else 3500
     return [{"seed": f"C05:{seed}:{k}", "count": per, "hashseeds": [1, 2] if tier == "quick" else [1, 2, 3, 4]}
@@ -360,7 +367,7 @@ def run_shard(shard, rec):
         if p.returncode != 0:
             rec.notes.append(f"hashseed child {hs} failed: {p.stderr[-300:]}")
             continue
-        for desc, s0, s1 in zip(descs, shows, json.loads(p.stdout)):
+        for desc, s0, s1 in zip(descs, shows, _last_json(p.stdout)):
             rec.count("hashseed_trees_compared")
             if s0 != s1:
                 rec.violation("lowering-depends-on-hash-seed",
@@ -384,4 +391,4 @@ if __name__ == "__main__":
             out.append(show(create_ast_from_phase(make_dag(desc, None, "frozenset"), "main")))
         except Exception as ex:
             out.append(f"EXC {type(ex).__name__}")
-    sys.stdout.write(json.dumps(out))
+    sys.stdout.write("\nVFJSON:" + json.dumps(out) + "\n")
